@@ -92,7 +92,7 @@ PROPS["C02"] = dict(
                "comparison of canonical dumps and the gp_index/userdata tags.",
     technique="explicit-state BFS over operation histories of the real library (state = replayed history, dedup on canonical dump)",
     design_ref="DESIGN.md 5 (C02), 2.1-2.3",
-    stages=[simple("hist", "c02_history", parts=100, deadline={"quick": 240, "thorough": 3000})],
+    stages=[simple("hist", "c02_history", parts=100, deadline={"quick": 240, "thorough": 900})],
     explanation="Roots: U_small (14 synthetic + fixtures with <= 8 PUs) x 4 configurations (default, keep-all + INCLUDE_DISALLOWED, "
                 "KEEP_STRUCTURE everything, keep-all). Alphabet per state: restrict (subsets / object sets x 7 flag words + invalid), "
                 "insert_misc at every object, Group insertion (object sets, sibling unions, conflicting sets, nodeset-only, empty, "
